@@ -82,6 +82,18 @@ func FamExpr(t Type, emit func(Gen)) {
 		ret("expr-shift", t, Bin{Op: ">>", L: a, R: Lit{V: c}})
 		ret("expr-shift", t, Bin{Op: "^", L: Bin{Op: ">>", L: Bin{Op: "+", L: a, R: b}, R: Lit{V: c}}, R: b})
 	}
+	// shift counts of the operand's width and beyond (Go: 0, or all sign bits for >> on a negative signed value;
+	// testsuite/lang/lshift64.mpcl and rshift64.mpcl pin the non-negative case)
+	seen := map[int64]bool{}
+	for _, c := range []int64{int64(t.W), int64(t.W) + 1, 2 * int64(t.W), 64, 130} {
+		if c < int64(t.W) || seen[c] {
+			continue
+		}
+		seen[c] = true
+		ret("expr-shift-wide-count", t, Bin{Op: "<<", L: a, R: Lit{V: c}})
+		ret("expr-shift-wide-count", t, Bin{Op: ">>", L: a, R: Lit{V: c}})
+		ret("expr-shift-wide-count", t, Bin{Op: "+", L: Bin{Op: ">>", L: Bin{Op: "-", L: a, R: b}, R: Lit{V: c}}, R: b})
+	}
 }
 
 // litClass names the size class of a literal (the compiler stores constants in 32 or 64 bits).
